@@ -167,6 +167,10 @@ func runC04(ctx *Ctx) {
 func c04TemplateFiles(ctx *Ctx, r *Rng) {
 	n := ctx.Budget(60, 3000)
 	cases := 0
+	var tmplProjects []Project
+	defer func() {
+		projectFSCorrespondence(ctx, tmplProjects, "projects of files written from one template")
+	}()
 	for it := 0; it < n && len(ctx.Violations) < 10; it++ {
 		k := 2 + r.Intn(3)
 		parts := r.Intn(31) + 1 // which sections the template has
@@ -208,6 +212,7 @@ func c04TemplateFiles(ctx *Ctx, r *Rng) {
 		}
 		files["root.jst"] = []byte(root)
 		p := Project{Files: files, Root: "root.jst"}
+		tmplProjects = append(tmplProjects, p)
 		res := RunProject(p, false)
 		one := RunProject(SingleFile([]byte(single)), false)
 		cases++
